@@ -18,8 +18,8 @@ type guardSpec struct {
 }
 
 func checkC20(c *Ctx) {
-	c.Explanation = "Decides the structural clauses of the bucket constructors and of bucket identity: (O1) each constructor rejects exactly n<=0 (linear) resp. n<=0, start<=0, factor<=1 (exponential) with (nil, error), the success return is reachable only when all guards are false, and the result is make(T, n); (O2) each MustMake* calls its own plain sibling with its parameters in order, panics exactly on err != nil and returns the sibling's result; (O3) no slice of bucket element type that is not freshly allocated in the same function is ever the target of an element store, copy, sort or Swap in the library packages (so the caller's Buckets are never modified; the two sorts operate on copies); (O4) bucketCache.Get returns a cached storage only on a path where bucketsEqual(requested, stored) was true, every other returned storage is built from the requested buckets, and bucketsEqual compares dynamic type, length and every element."
-	c.NotDecided = []string{"the numeric recurrences (start + i*width, repeated multiplication) as floating-point results"}
+	c.Explanation = "Decides the structural clauses of the bucket constructors and of bucket identity: (O1) each constructor rejects exactly n<=0 (linear) resp. n<=0, start<=0, factor<=1 (exponential) with (nil, error), the success return is reachable only when all guards are false, and the result is make(T, n); (O2) each MustMake* calls its own plain sibling with its parameters in order, panics exactly on err != nil and returns the sibling's result; (O3) no slice of bucket element type that is not freshly allocated in the same function is ever the target of an element store, copy, sort or Swap in the library packages (so the caller's Buckets are never modified; the two sorts operate on copies); (O4) bucketCache.Get returns a cached storage only on a path where bucketsEqual(requested, stored) was true, every other returned storage is built from the requested buckets, and bucketsEqual compares dynamic type, length and every element; (O5) each constructor writes every index 0..n-1 of its result exactly once per loop iteration with, symbolically, start + i*width (or an accumulator seeded with start and advanced by + width after the store) resp. an accumulator seeded with start and advanced by * factor after the store (or start*Pow(factor,i)): element 0 is start and each further element is the previous one plus width / times factor."
+	c.NotDecided = []string{"the floating-point / integer results of the recurrences (rounding, overflow, the truncation in the duration conversion): O5 decides the recurrence symbolically"}
 
 	// ---- O1 guards ------------------------------------------------------------------------
 	ctors := []struct {
@@ -40,6 +40,7 @@ func checkC20(c *Ctx) {
 		c.sawFunc(c.fnKey(fn))
 		c.checkCtorGuards("O1 guards", fn, ct.guards)
 		c.checkMust("O2 must-shape", "MustMake"+ct.name, fn)
+		c.checkRecurrence("O5 recurrence", fn, strings.HasPrefix(ct.name, "Exponential"))
 	}
 
 	// ---- O3 no mutation of non-fresh bucket storage ----------------------------------------
@@ -48,6 +49,168 @@ func checkC20(c *Ctx) {
 	// ---- O4 cache hit equality -------------------------------------------------------------
 	c.checkBucketCacheGet("O4 cache-hit-equality")
 	c.checkBucketsEqual("O4 buckets-equal")
+}
+
+// checkRecurrence (O5): the bounds follow the documented recurrence. Decided symbolically on SSA, not
+// numerically: the returned slice is written by exactly one element store, executed once in every
+// iteration of a loop whose induction variable covers 0..n-1, at that index, and the stored value,
+// normalised (conversions dropped, operands of + and * sorted), is
+//
+//	linear:       start + i*step,  or an accumulator  a = phi[start, a+step]  stored before its update
+//	exponential:  an accumulator   a = phi[start, a*step]  stored before its update, or start * Pow(step, i)
+//
+// i.e. element 0 is start and each further element is the previous one plus width / times factor.
+func (c *Ctx) checkRecurrence(rule string, fn *ssa.Function, exponential bool) {
+	key := c.fnKey(fn)
+	if len(fn.Params) != 3 {
+		c.undecided(rule, key, fn.Pos(), "constructor does not have the parameters (start, step, n)")
+		return
+	}
+	var ms *ssa.MakeSlice
+	for _, r := range returnsOf(fn) {
+		if len(r.Results) == 2 && isNilConst(r.Results[1]) {
+			if m, ok := stripConv(r.Results[0]).(*ssa.MakeSlice); ok {
+				ms = m
+			}
+		}
+	}
+	if ms == nil {
+		return // O1 reports the shape of the result
+	}
+	// element stores into the result
+	var stores []*ssa.Store
+	instrsOf(fn, func(in ssa.Instruction) {
+		if st, ok := in.(*ssa.Store); ok {
+			if ia, isIA := st.Addr.(*ssa.IndexAddr); isIA && stripConv(canon(ia.X)) == ssa.Value(ms) {
+				stores = append(stores, st)
+			}
+		}
+	})
+	if len(stores) != 1 {
+		c.bad(rule, key, fn.Pos(), fmt.Sprintf("the result is written by %d element stores (expected one store, executed once per index)", len(stores)))
+		return
+	}
+	st := stores[0]
+	ia := st.Addr.(*ssa.IndexAddr)
+	var fl *fwdLoop
+	for _, l := range countingLoops(fn) {
+		if l.idx != ia.Index || !l.loop.Blocks[st.Block()] {
+			continue
+		}
+		boundOK := false
+		if l.lenArg != nil && stripConv(canon(l.lenArg)) == ssa.Value(ms) {
+			boundOK = true
+		}
+		if stripConv(canon(l.bound)) == stripConv(canon(ms.Len)) {
+			boundOK = true
+		}
+		if boundOK {
+			fl = l
+		}
+	}
+	if fl == nil {
+		c.bad(rule, key, st.Pos(), "the element store is not indexed by the induction variable of a loop that runs over every index 0..n-1 of the result: some bounds are left zero or written twice", c.describe(st))
+		return
+	}
+	for _, latch := range fl.loop.Latch {
+		if !st.Block().Dominates(latch) {
+			c.bad(rule, key, st.Pos(), "the element store is not executed in every iteration of the loop", c.describe(st))
+			return
+		}
+	}
+	for _, lp := range loopsOf(fn) {
+		if lp != fl.loop && lp.Blocks[st.Block()] && fl.loop.Blocks[lp.Header] && lp.Header != fl.header {
+			c.bad(rule, key, st.Pos(), "the element store sits in a nested loop", c.describe(st))
+			return
+		}
+	}
+	S, W := ssa.Value(fn.Params[0]), ssa.Value(fn.Params[1])
+	var sym func(v ssa.Value, acc *ssa.Phi, depth int) string
+	sym = func(v ssa.Value, acc *ssa.Phi, depth int) string {
+		if depth == 0 {
+			return "?"
+		}
+		for {
+			switch x := v.(type) {
+			case *ssa.Convert:
+				v = x.X
+				continue
+			case *ssa.ChangeType:
+				v = x.X
+				continue
+			}
+			break
+		}
+		v = canon(v)
+		switch {
+		case v == fl.idx:
+			return "I"
+		case v == S:
+			return "S"
+		case v == W:
+			return "W"
+		}
+		switch x := v.(type) {
+		case *ssa.Convert:
+			return sym(x.X, acc, depth-1)
+		case *ssa.ChangeType:
+			return sym(x.X, acc, depth-1)
+		case *ssa.Const:
+			return "K:" + x.Value.String()
+		case *ssa.BinOp:
+			a, b := sym(x.X, acc, depth-1), sym(x.Y, acc, depth-1)
+			if (x.Op == token.ADD || x.Op == token.MUL) && b < a {
+				a, b = b, a
+			}
+			return x.Op.String() + "(" + a + "," + b + ")"
+		case *ssa.Call:
+			if g := staticCallee(x); g != nil && g.Pkg != nil && g.Pkg.Pkg.Path() == "math" && g.Name() == "Pow" && len(x.Call.Args) == 2 {
+				return "POW(" + sym(x.Call.Args[0], acc, depth-1) + "," + sym(x.Call.Args[1], acc, depth-1) + ")"
+			}
+		case *ssa.Phi:
+			if x == acc {
+				return "ACC"
+			}
+			if x.Block() == fl.header && acc == nil {
+				init, next := "", ""
+				for i, e := range x.Edges {
+					s := ""
+					if fl.loop.Blocks[x.Block().Preds[i]] {
+						s = sym(e, x, depth-1)
+						if next != "" && next != s {
+							return "?phi"
+						}
+						next = s
+					} else {
+						s = sym(e, x, depth-1)
+						if init != "" && init != s {
+							return "?phi"
+						}
+						init = s
+					}
+				}
+				return "ACC{" + init + ";" + next + "}"
+			}
+		}
+		return "?" + v.Name()
+	}
+	got := sym(st.Val, nil, 8)
+	var want []string
+	what := ""
+	if exponential {
+		want = []string{"ACC{S;*(ACC,W)}", "*(POW(W,I),S)"}
+		what = "element 0 = start, element i+1 = element i * factor"
+	} else {
+		want = []string{"+(*(I,W),S)", "ACC{S;+(ACC,W)}"}
+		what = "element i = start + i*width"
+	}
+	for _, w := range want {
+		if got == w {
+			c.ok(rule, key, st.Pos(), "every index 0..n-1 is written once per iteration with "+what+" (symbolic form "+got+")")
+			return
+		}
+	}
+	c.bad(rule, key, st.Pos(), "the value stored for index i is not "+what+": symbolic form "+got+", accepted "+strings.Join(want, " | "), c.describe(st))
 }
 
 // leqGuard recognises `param <= k` (ints: also `param < k+1`), returning the parameter.
